@@ -2052,6 +2052,11 @@ fn check_definitions<'a>(
                 }
             }
 
+            // Definitions can contain lets of their own, which need to be checked too.
+            for (_, _, definition) in definitions {
+                check_definitions(source_path, source_contents, definition, new_depth, errors);
+            }
+
             check_definitions(source_path, source_contents, body, new_depth, errors);
         }
         term::Variant::Negation(subterm) => {
